@@ -92,6 +92,7 @@ fn main() {
         "C20" => dispatch::<props::c20::C20>(&cli),
         "C19" => dispatch::<props::c19::C19>(&cli),
         "C18" => dispatch::<props::c18::C18>(&cli),
+        "C11" => dispatch::<props::c11::C11>(&cli),
         "C13" => dispatch::<props::c13::C13>(&cli),
         "C14" => dispatch::<props::c14::C14>(&cli),
         "C15" => dispatch::<props::c15::C15>(&cli),
